@@ -26,6 +26,9 @@ import time
 
 REPO = "/repo"
 LOCK = "/var/tmp/repo.lock"
+# the checks a sweep runs: /verif/check, or a frozen copy of it and of vf/ (VF_CHECK=/var/tmp/verif-snap/check)
+# so that a sweep lasting hours is not disturbed by work on the harness
+CHECK = os.environ.get("VF_CHECK", "/verif/check")
 ALL = ["C%02d" % i for i in range(1, 21)]
 
 ORDER = [
@@ -106,7 +109,7 @@ def candidates(files):
                 for m in re.finditer(rx, code):
                     new = code[: m.start()] + m.expand(rep) + code[m.end():]
                     if new != line:
-                        out.append({"file": rel, "line": i + 1, "op": name, "before": line.strip()[:160], "after": new.strip()[:160], "_new": new})
+                        out.append({"file": rel, "line": i + 1, "op": name, "before": line.strip()[:160], "after": new.strip()[:160], "_new": new, "_old": line})
     return out
 
 
@@ -117,7 +120,7 @@ def order_for(rel):
     return ALL
 
 
-def verify(outp):
+def verify(outp, survivors_only=False):
     """--verify: every record filed as caught is run again against the check that caught it, on the
     present (stable) harness and tree; a record that is not caught again is re-run through the whole
     order. Guards against attributions made while the harness itself was being changed."""
@@ -130,6 +133,8 @@ def verify(outp):
     changed = 0
     for i, rec in enumerate(recs):
         if rec["outcome"] not in ("caught", "survived", "survived-on-verification") or rec.get("verified"):
+            continue
+        if survivors_only and rec["outcome"] == "caught":
             continue
         c = cands.get((rec["file"], rec["op"], rec["before"], rec["after"]))
         if c is None:
@@ -147,7 +152,7 @@ def verify(outp):
                 order = ([first] if first else []) + [x for x in order_for(c["file"]) if x != first]
                 hit = None
                 for chk in order:
-                    rc, o = sh(["/verif/check", chk], "/verif", env)
+                    rc, o = sh([CHECK, chk], os.path.dirname(CHECK), env)
                     vl = [l for l in o.splitlines() if l.startswith("VIOLATION")]
                     if rc == 1 and vl:
                         hit = (chk, vl[0].split("signature=")[1].split(" ::")[0] if "signature=" in vl[0] else vl[0][:120])
@@ -179,6 +184,8 @@ def main():
     a = sys.argv[1:]
     if a and a[0] == "--verify":
         return verify(a[1] if len(a) > 1 else "/verif/mutsweep/results.jsonl")
+    if a and a[0] == "--verify-survivors":
+        return verify(a[1] if len(a) > 1 else "/verif/mutsweep/results.jsonl", survivors_only=True)
     seed, count, pats, outp, only = 1, 50, ["core/src/**/*.rs"], "/verif/mutsweep/results.jsonl", None
     i = 0
     while i < len(a):
@@ -227,6 +234,11 @@ def main():
                 return 2
             path = os.path.join(REPO, c["file"])
             src = open(path).read()
+            if c["line"] > len(src.split("\n")) or src.split("\n")[c["line"] - 1] != c["_old"]:
+                # /repo moved on (a repair was committed) since the candidates were listed
+                print(f"[{n}] stale candidate skipped {c['file']}:{c['line']}", flush=True)
+                n -= 1
+                continue
             try:
                 lines = src.split("\n")
                 lines[c["line"] - 1] = c["_new"]
@@ -237,7 +249,7 @@ def main():
                 else:
                     rec["outcome"] = "survived-checks"
                     for chk in order_for(c["file"]):
-                        rc, o = sh(["/verif/check", chk], "/verif", env)
+                        rc, o = sh([CHECK, chk], os.path.dirname(CHECK), env)
                         vl = [l for l in o.splitlines() if l.startswith("VIOLATION")]
                         if rc == 1 and vl:
                             rec["outcome"] = "caught"
